@@ -252,9 +252,21 @@ structure GridOK (mn mx : α) (n : Nat) (bounds psd : List α) : Prop where
   psd_len : psd.length = n
   psd_nonneg : ∀ x ∈ psd, 0 ≤ x
 
+/-- one recorded row pair: the all-zero first record written by `enableRecording`, or a consistent
+grid with a POSITIVE lower end (the code counts non-zero boundaries), each row padded with zeros -/
+def RowOK (rb rp : List α) : Prop :=
+  nonzeroCount rb = 0 ∨
+  ∃ (mn mx : α) (n : Nat) (b p : List α) (k1 k2 : Nat),
+    0 < mn ∧ GridOK mn mx n b p ∧ rb = b ++ zeros k1 ∧ rp = p ++ zeros k2
+
+/-- recorded arrays: as many boundary rows as population rows as times, every row pair `RowOK` -/
+def RecsOK (B P : List (List α)) (T : List α) : Prop :=
+  B.length = P.length ∧ B.length = T.length ∧ ∀ q ∈ List.zip B P, RowOK q.1 q.2
+
 /-- **Inv**: the current grid is consistent, centres are midpoints, the original grid description
-is usable (so that `reset` works) and the backup is itself a consistent grid (so that `revert`
-works at any time). -/
+is usable (so that `reset` works), the backup is itself a consistent grid (so that `revert`
+works at any time), and every recorded / saved record is a consistent grid (so that
+`setPSDtoRecordedTime` works at any time). -/
 structure Inv (s : State α) : Prop where
   grid : GridOK s.min s.max s.bins s.bounds s.psd
   size_eq : s.size = midpoints s.bounds
@@ -262,6 +274,10 @@ structure Inv (s : State α) : Prop where
   orig_nonneg : 0 ≤ s.origMin
   orig_lt : s.origMin < s.origMax
   backup : ∃ mn mx n, GridOK mn mx n s.prevBounds s.prevPsd
+  recs : RecsOK s.recBins s.recPsd s.recTime
+  saved : RecsOK s.savedBins s.savedPsd s.savedTime
+
+theorem recsOK_nil : RecsOK ([] : List (List α)) [] [] := ⟨rfl, rfl, by simp⟩
 
 theorem zeros_nonneg (n : Nat) : ∀ x ∈ (zeros n : List α), 0 ≤ x := by
   intro x hx; simp [zeros] at hx; rw [hx.2]
@@ -319,24 +335,30 @@ theorem gridOK_fresh (mn mx : α) (n : Nat) (hn : 1 ≤ n) (h0 : 0 ≤ mn) (h : 
     GridOK mn mx n (linspace mn mx n) (zeros n) :=
   ⟨hn, h0, h, rfl, zeros_length n, zeros_nonneg n⟩
 
-theorem reset_true_inv (s : State α) (hn : 1 ≤ s.origBins) (h0 : 0 ≤ s.origMin) (h : s.origMin < s.origMax) :
+theorem reset_true_inv (s : State α) (hn : 1 ≤ s.origBins) (h0 : 0 ≤ s.origMin) (h : s.origMin < s.origMax)
+    (hr : RecsOK s.recBins s.recPsd s.recTime) (hsv : RecsOK s.savedBins s.savedPsd s.savedTime) :
     Inv (reset s true) := by
-  refine ⟨?_, ?_, ?_, ?_, ?_, ?_⟩ <;> simp only [reset, if_true]
+  refine ⟨?_, ?_, ?_, ?_, ?_, ?_, ?_, ?_⟩ <;> simp only [reset, if_true]
   · exact gridOK_fresh _ _ _ hn h0 h
   · exact hn
   · exact h0
   · exact h
   · exact ⟨_, _, _, gridOK_fresh _ _ _ hn h0 h⟩
+  · exact hr
+  · exact hsv
 
 theorem reset_false_inv (s : State α) (hb : 1 ≤ s.bins) (hm : 0 ≤ s.min) (hlt : s.min < s.max)
-    (hn : 1 ≤ s.origBins) (h0 : 0 ≤ s.origMin) (h : s.origMin < s.origMax) :
+    (hn : 1 ≤ s.origBins) (h0 : 0 ≤ s.origMin) (h : s.origMin < s.origMax)
+    (hr : RecsOK s.recBins s.recPsd s.recTime) (hsv : RecsOK s.savedBins s.savedPsd s.savedTime) :
     Inv (reset s false) := by
-  refine ⟨?_, ?_, ?_, ?_, ?_, ?_⟩ <;> simp only [reset, Bool.false_eq_true, if_false]
+  refine ⟨?_, ?_, ?_, ?_, ?_, ?_, ?_, ?_⟩ <;> simp only [reset, Bool.false_eq_true, if_false]
   · exact gridOK_fresh _ _ _ hb hm hlt
   · exact hn
   · exact h0
   · exact h
   · exact ⟨_, _, _, gridOK_fresh _ _ _ hb hm hlt⟩
+  · exact hr
+  · exact hsv
 
 /-- **reset**: `reset(True)` restores the original grid description, the boundaries are the
 original linspace and the distribution is empty. -/
@@ -359,6 +381,8 @@ theorem inv_init (cMin cMax : α) (bins minBins maxBins : Nat) (hb : 1 ≤ bins)
   · exact hb
   · exact h0
   · simpa using h
+  · exact recsOK_nil
+  · exact recsOK_nil
 
 theorem pre_of_pos (cMin cMax : α) (h : 0 < cMin) : cMin < amax2 (10 * cMin) cMax :=
   lt_amax2 _ _ _ (Or.inl (by linarith))
@@ -394,12 +418,12 @@ theorem add_inv (s s' : State α) (k : Nat) (h : Inv s) (hs : add s k = some s')
   rw [add_eq s k h] at hs
   have hs' := Option.some.inj hs
   subst hs'
-  obtain ⟨⟨hn, h0, hlt, hb, hl, hp⟩, hsz, ho1, ho2, ho3, hbk⟩ := h
+  obtain ⟨⟨hn, h0, hlt, hb, hl, hp⟩, hsz, ho1, ho2, ho3, hbk, hr, hsv⟩ := h
   have hstep : 0 ≤ (k : α) * stepOf s := by
     have : (0 : α) < (s.bins : α) := by exact_mod_cast hn
     have : 0 < stepOf s := div_pos (sub_pos.mpr hlt) this
     positivity
-  refine ⟨⟨by simp only; omega, h0, by simp only; linarith, rfl, by simp [hl, zeros], ?_⟩, rfl, ho1, ho2, ho3, hbk⟩
+  refine ⟨⟨by simp only; omega, h0, by simp only; linarith, rfl, by simp [hl, zeros], ?_⟩, rfl, ho1, ho2, ho3, hbk, hr, hsv⟩
   intro x hx
   simp only [List.mem_append] at hx
   rcases hx with hx | hx
@@ -536,11 +560,11 @@ theorem change_inv (s s' : State α) (cMin cMax : α) (b? : Option Nat) (r : Boo
   | true =>
     simp only [change, if_true] at hs
     have := Option.some.inj hs; subst this
-    exact reset_true_inv _ h.orig_bins h.orig_nonneg h.orig_lt
+    exact reset_true_inv _ h.orig_bins h.orig_nonneg h.orig_lt h.recs h.saved
   | false =>
     rw [change_false_eq s cMin cMax b? h] at hs
     have hs' := Option.some.inj hs
-    obtain ⟨⟨hn, hm0, hmlt, hbe, hl, hp⟩, hsz, ho1, ho2, ho3, hbk⟩ := h
+    obtain ⟨⟨hn, hm0, hmlt, hbe, hl, hp⟩, hsz, ho1, ho2, ho3, hbk, hr, hsv⟩ := h
     have hbins : 1 ≤ b?.getD s.bins := by
       cases b? with
       | none => simpa using hn
@@ -556,7 +580,9 @@ theorem change_inv (s s' : State α) (cMin cMax : α) (b? : Option Nat) (r : Boo
       · exact ho1
       · exact ho2
       · exact ho3
-    obtain ⟨⟨a1, a2, a3, a4, a5, a6⟩, b1, b2, b3, b4, b5⟩ := hinv2
+      · exact hr
+      · exact hsv
+    obtain ⟨⟨a1, a2, a3, a4, a5, a6⟩, b1, b2, b3, b4, b5, b6, b7⟩ := hinv2
     -- non-negativity of the interpolated populations and of both third moments
     have hraw : ∀ x ∈ rawOf s cMin cMax b?, 0 ≤ x := by
       apply remeshRaw_nonneg _ _ _ hp
@@ -571,14 +597,14 @@ theorem change_inv (s s' : State α) (cMin cMax : α) (b? : Option Nat) (r : Boo
       rw [t5]; exact midpoints_linspace_nonneg _ _ _ hbins hc0 hclt
     split at hs'
     · subst hs'
-      refine ⟨⟨a1, a2, a3, a4, ?_, ?_⟩, b1, b2, b3, b4, b5⟩
+      refine ⟨⟨a1, a2, a3, a4, ?_, ?_⟩, b1, b2, b3, b4, b5, b6, b7⟩
       · simp only [List.length_map, rawOf, remeshRaw_length, t4, linspace_length, t3]; omega
       · intro x hx
         simp only [List.mem_map] at hx
         obtain ⟨y, hy, rfl⟩ := hx
         exact mul_nonneg (hraw y hy) (div_nonneg hold hnew)
     · subst hs'
-      exact ⟨⟨a1, a2, a3, a4, zeros_length _, zeros_nonneg _⟩, b1, b2, b3, b4, b5⟩
+      exact ⟨⟨a1, a2, a3, a4, zeros_length _, zeros_nonneg _⟩, b1, b2, b3, b4, b5, b6, b7⟩
 
 /-- the code as it is: `changeSizeClasses(cMin, cMax, bins, resetPSD=True)` discards the requested grid —
 `reset()` is called with `resetBounds=True` — and restores the ORIGINAL grid with an empty
@@ -638,20 +664,10 @@ theorem remesh_preserves_M3_partial (s s' : State α) (cMin cMax : α) (b? : Opt
 
 /-! ### update, direct assignment, load, backup, revert -/
 
-theorem update_inv (s : State α) (N : List α) (h : Inv s) (hN : N.length = s.bins) : Inv (update s N) := by
-  obtain ⟨⟨hn, hm0, hmlt, hbe, hl, hp⟩, hsz, ho1, ho2, ho3, hbk⟩ := h
-  refine ⟨⟨hn, hm0, hmlt, hbe, by simp [update, hN], ?_⟩, hsz, ho1, ho2, ho3, hbk⟩
-  intro x hx
-  simp only [update, List.mem_map] at hx
-  obtain ⟨y, _, rfl⟩ := hx
-  split
-  · exact le_refl _
-  · next hy => linarith [not_lt.mp hy]
-
 theorem setPsd_inv (s : State α) (N : List α) (h : Inv s) (hN : N.length = s.bins) (h0 : ∀ x ∈ N, 0 ≤ x) :
     Inv { s with psd := N } := by
-  obtain ⟨⟨hn, hm0, hmlt, hbe, hl, hp⟩, hsz, ho1, ho2, ho3, hbk⟩ := h
-  exact ⟨⟨hn, hm0, hmlt, hbe, hN, h0⟩, hsz, ho1, ho2, ho3, hbk⟩
+  obtain ⟨⟨hn, hm0, hmlt, hbe, hl, hp⟩, hsz, ho1, ho2, ho3, hbk, hr, hsv⟩ := h
+  exact ⟨⟨hn, hm0, hmlt, hbe, hN, h0⟩, hsz, ho1, ho2, ho3, hbk, hr, hsv⟩
 
 theorem histogram_length (data edges : List α) : (histogram data edges).length = edges.length - 1 := by
   simp [histogram]
@@ -666,16 +682,16 @@ theorem histogram_nonneg (data edges : List α) : ∀ x ∈ histogram data edges
 
 theorem load_inv (s s' : State α) (data : List α) (h : Inv s) (hs : load s data = some s') : Inv s' := by
   obtain ⟨hn, hpl, hbl, hsl, -⟩ := inv_spec s h
-  obtain ⟨⟨hn, hm0, hmlt, hbe, hl, hp⟩, hsz, ho1, ho2, ho3, hbk⟩ := h
+  obtain ⟨⟨hn, hm0, hmlt, hbe, hl, hp⟩, hsz, ho1, ho2, ho3, hbk, hr, hsv⟩ := h
   unfold load at hs
   split at hs
   · simp at hs
   · have := Option.some.inj hs; subst this
-    exact ⟨⟨hn, hm0, hmlt, hbe, by simp only [histogram_length, hbl]; omega, histogram_nonneg _ _⟩, hsz, ho1, ho2, ho3, hbk⟩
+    exact ⟨⟨hn, hm0, hmlt, hbe, by simp only [histogram_length, hbl]; omega, histogram_nonneg _ _⟩, hsz, ho1, ho2, ho3, hbk, hr, hsv⟩
 
 theorem backup_inv (s : State α) (h : Inv s) : Inv (backup s) := by
-  obtain ⟨hg, hsz, ho1, ho2, ho3, hbk⟩ := h
-  exact ⟨hg, hsz, ho1, ho2, ho3, ⟨_, _, _, hg⟩⟩
+  obtain ⟨hg, hsz, ho1, ho2, ho3, hbk, hr, hsv⟩ := h
+  exact ⟨hg, hsz, ho1, ho2, ho3, ⟨_, _, _, hg⟩, hr, hsv⟩
 
 /-- closed form of `revert` when the backup is a consistent grid `(mn, mx, n)` -/
 theorem revert_eq (s : State α) (mn mx : α) (n : Nat) (hg : GridOK mn mx n s.prevBounds s.prevPsd) :
@@ -691,10 +707,10 @@ after a re-mesh): the backup is part of the invariant.  Before the repair record
 known_findings.txt the backup boundaries were initialised to zeros and this failed, see
 `revert_zero_backup_breaks`. -/
 theorem revert_inv (s s' : State α) (h : Inv s) (hs : revert s = some s') : Inv s' := by
-  obtain ⟨hg, hsz, ho1, ho2, ho3, ⟨mn, mx, n, hbk⟩⟩ := h
+  obtain ⟨hg, hsz, ho1, ho2, ho3, ⟨mn, mx, n, hbk⟩, hr, hsv⟩ := h
   rw [revert_eq s mn mx n hbk] at hs
   have := Option.some.inj hs; subst this
-  exact ⟨hbk, rfl, ho1, ho2, ho3, ⟨mn, mx, n, hbk⟩⟩
+  exact ⟨hbk, rfl, ho1, ho2, ho3, ⟨mn, mx, n, hbk⟩, hr, hsv⟩
 
 /-- **backup/revert**: `revert` directly after `createBackup` on a consistent grid gives back the
 distribution, boundaries, centres, class count and range. -/
@@ -948,6 +964,457 @@ theorem adjust_cap (s s' : State α) (cd chg : Bool) (ni : Option Nat)
       rw [hb]
       rcases hn with rfl | rfl <;> omega
 
+/-! ### PSD recording: enableRecording, record, UpdatePBMEuler, save/load, setPSDtoRecordedTime -/
+
+theorem nonzeroCount_append (a b : List α) : nonzeroCount (a ++ b) = nonzeroCount a + nonzeroCount b := by
+  simp [nonzeroCount, List.filter_append]
+
+theorem nonzeroCount_zeros (k : Nat) : nonzeroCount (zeros k : List α) = 0 := by
+  unfold nonzeroCount
+  rw [List.length_eq_zero_iff, List.filter_eq_nil_iff]
+  intro a ha
+  simp only [zeros, List.mem_replicate] at ha
+  simp [ha.2]
+
+theorem nonzeroCount_pos_all (b : List α) (h : ∀ x ∈ b, 0 < x) : nonzeroCount b = b.length := by
+  unfold nonzeroCount
+  rw [List.filter_eq_self.mpr]
+  intro a ha
+  simp [h a ha]
+
+theorem zeros_append (a b : Nat) : (zeros a : List α) ++ zeros b = zeros (a + b) := by
+  simp [zeros, List.replicate_append_replicate]
+
+theorem rowOK_pad (rb rp : List α) (w1 w2 : Nat) (h : RowOK rb rp) : RowOK (padRow w1 rb) (padRow w2 rp) := by
+  rcases h with h | ⟨mn, mx, n, b, p, k1, k2, hmn, hg, rfl, rfl⟩
+  · left; unfold padRow; rw [nonzeroCount_append, h, nonzeroCount_zeros]
+  · right
+    refine ⟨mn, mx, n, b, p, k1 + (w1 - (b ++ zeros k1).length), k2 + (w2 - (p ++ zeros k2).length), hmn, hg, ?_, ?_⟩ <;>
+      (unfold padRow; rw [List.append_assoc, zeros_append])
+
+theorem rowOK_zeros (a b : Nat) : RowOK (zeros a : List α) (zeros b) := Or.inl (nonzeroCount_zeros a)
+
+theorem rowOK_grid (mn mx : α) (n : Nat) (b p : List α) (w1 w2 : Nat) (hmn : 0 < mn)
+    (hg : GridOK mn mx n b p) : RowOK (padRow w1 b) (padRow w2 p) :=
+  Or.inr ⟨mn, mx, n, b, p, _, _, hmn, hg, rfl, rfl⟩
+
+theorem recsOK_record (B P : List (List α)) (T : List α) (w1 w2 : Nat) (rb rp : List α) (t : α)
+    (h : RecsOK B P T) (hrow : RowOK rb rp) :
+    RecsOK (B.map (padRow w1) ++ [rb]) (P.map (padRow w2) ++ [rp]) (T ++ [t]) := by
+  obtain ⟨h1, h2, h3⟩ := h
+  refine ⟨by simp [h1], by simp [h2], ?_⟩
+  intro q hq
+  rw [List.zip_append (by simp [h1]), List.mem_append] at hq
+  rcases hq with hq | hq
+  · rw [List.zip_map, List.mem_map] at hq
+    obtain ⟨q0, hq0, rfl⟩ := hq
+    exact rowOK_pad _ _ _ _ (h3 q0 hq0)
+  · simp only [List.zip_cons_cons, List.zip_nil_right, List.mem_singleton] at hq
+    subst hq; exact hrow
+
+/-- **Inv is preserved by `record`** when the lower end of the grid is positive (the code counts
+non-zero boundaries to find the length of a record) -/
+theorem record_inv (s s' : State α) (t : α) (h : Inv s) (hpos : s.recording = true → 0 < s.min)
+    (hs : record s t = some s') : Inv s' := by
+  obtain ⟨hg, hsz, ho1, ho2, ho3, hbk, hr, hsv⟩ := h
+  unfold record at hs
+  by_cases hrec : s.recording = true
+  · rw [if_pos hrec] at hs
+    generalize (if s.adaptive = true then s.maxBins else s.bins) = mb at hs
+    unfold recordWith at hs
+    split at hs
+    · simp at hs
+    · have := Option.some.inj hs; subst this
+      exact ⟨hg, hsz, ho1, ho2, ho3, hbk,
+        recsOK_record _ _ _ _ _ _ _ _ hr (rowOK_grid _ _ _ _ _ _ _ (hpos hrec) hg), hsv⟩
+  · rw [if_neg hrec] at hs
+    have := Option.some.inj hs; subst this; exact ⟨hg, hsz, ho1, ho2, ho3, hbk, hr, hsv⟩
+
+/-- `record` only touches the recorded arrays -/
+theorem record_fields (s s' : State α) (t : α) (hs : record s t = some s') :
+    s' = { s with recBins := s'.recBins, recPsd := s'.recPsd, recTime := s'.recTime } := by
+  unfold record at hs
+  by_cases hrec : s.recording = true
+  · rw [if_pos hrec] at hs
+    generalize (if s.adaptive = true then s.maxBins else s.bins) = mb at hs
+    unfold recordWith at hs
+    split at hs
+    · simp at hs
+    · have := Option.some.inj hs; subst this; rfl
+  · rw [if_neg hrec] at hs
+    have := Option.some.inj hs; subst this; rfl
+
+/-- **Inv is preserved by `UpdatePBMEuler`** for a distribution of the right length (any sign: entries
+below 1 are dropped) -/
+theorem update_inv (s s' : State α) (t : α) (N : List α) (h : Inv s) (hN : N.length = s.bins)
+    (hpos : s.recording = true → 0 < s.min) (hs : update s t N = some s') : Inv s' := by
+  unfold update at hs
+  refine record_inv { s with psd := N.map (fun x => if x < 1 then 0 else x) } s' t ?_ hpos hs
+  obtain ⟨⟨hn, hm0, hmlt, hbe, hl, hp⟩, hsz, ho1, ho2, ho3, hbk, hr, hsv⟩ := h
+  refine ⟨⟨hn, hm0, hmlt, hbe, by rw [List.length_map]; exact hN, ?_⟩, hsz, ho1, ho2, ho3, hbk, hr, hsv⟩
+  intro x hx
+  rw [List.mem_map] at hx
+  obtain ⟨y, _, rfl⟩ := hx
+  split
+  · exact le_refl _
+  · next hy => linarith [not_lt.mp hy]
+
+theorem enableRec_inv (s : State α) (h : Inv s) : Inv (enableRec s) := by
+  obtain ⟨hg, hsz, ho1, ho2, ho3, hbk, hr, hsv⟩ := h
+  refine ⟨hg, hsz, ho1, ho2, ho3, hbk, ⟨rfl, rfl, ?_⟩, hsv⟩
+  intro q hq
+  simp only [enableRec, List.zip_cons_cons, List.zip_nil_right, List.mem_singleton] at hq
+  subst hq; exact rowOK_zeros _ _
+
+theorem saveRec_inv (s : State α) (h : Inv s) : Inv (saveRec s) := by
+  obtain ⟨hg, hsz, ho1, ho2, ho3, hbk, hr, hsv⟩ := h
+  unfold saveRec
+  split
+  · exact ⟨hg, hsz, ho1, ho2, ho3, hbk, hr, hr⟩
+  · exact ⟨hg, hsz, ho1, ho2, ho3, hbk, hr, hsv⟩
+
+theorem loadRec_inv (s s' : State α) (h : Inv s) (hs : loadRec s = some s') : Inv s' := by
+  obtain ⟨hg, hsz, ho1, ho2, ho3, hbk, hr, hsv⟩ := h
+  unfold loadRec at hs
+  split at hs
+  · have := Option.some.inj hs; subst this; exact ⟨hg, hsz, ho1, ho2, ho3, hbk, hsv, hsv⟩
+  · simp at hs
+
+/-! extremes of a grid (`np.amin`, `np.amax` of the boundaries) -/
+
+theorem le_foldl_max : ∀ (xs : List α) (a : α),
+    a ≤ xs.foldl (fun a b => if a < b then b else a) a ∧
+    ∀ x ∈ xs, x ≤ xs.foldl (fun a b => if a < b then b else a) a := by
+  intro xs
+  induction xs with
+  | nil => intro a; simp
+  | cons y ys ih =>
+    intro a
+    simp only [List.foldl_cons, List.mem_cons]
+    obtain ⟨h1, h2⟩ := ih (if a < y then y else a)
+    refine ⟨le_trans ?_ h1, ?_⟩
+    · split <;> [exact le_of_lt ‹_›; exact le_refl _]
+    · intro x hx
+      rcases hx with rfl | hx
+      · refine le_trans ?_ h1
+        split <;> [exact le_refl _; exact not_lt.mp ‹_›]
+      · exact h2 x hx
+
+theorem le_maxList (xs : List α) (x : α) (hx : x ∈ xs) : x ≤ maxList xs := by
+  cases xs with
+  | nil => simp at hx
+  | cons y ys =>
+    unfold maxList
+    obtain ⟨h1, h2⟩ := le_foldl_max ys y
+    rcases List.mem_cons.mp hx with rfl | h
+    · exact h1
+    · exact h2 x h
+
+theorem foldl_min_spec : ∀ (xs : List α) (a : α),
+    xs.foldl (fun a b => if b < a then b else a) a ∈ a :: xs ∧
+    xs.foldl (fun a b => if b < a then b else a) a ≤ a ∧
+    ∀ x ∈ xs, xs.foldl (fun a b => if b < a then b else a) a ≤ x := by
+  intro xs
+  induction xs with
+  | nil => intro a; simp
+  | cons y ys ih =>
+    intro a
+    simp only [List.foldl_cons, List.mem_cons]
+    obtain ⟨h1, h2, h3⟩ := ih (if y < a then y else a)
+    by_cases hya : y < a
+    · simp only [hya, if_true] at h1 h2 h3 ⊢
+      refine ⟨?_, le_trans h2 hya.le, ?_⟩
+      · rcases List.mem_cons.mp h1 with h | h
+        · exact Or.inr (Or.inl h)
+        · exact Or.inr (Or.inr h)
+      · intro x hx
+        rcases hx with rfl | hx
+        · exact h2
+        · exact h3 x hx
+    · simp only [hya, if_false] at h1 h2 h3 ⊢
+      refine ⟨?_, h2, ?_⟩
+      · rcases List.mem_cons.mp h1 with h | h
+        · exact Or.inl h
+        · exact Or.inr (Or.inr h)
+      · intro x hx
+        rcases hx with rfl | hx
+        · exact le_trans h2 (not_lt.mp hya)
+        · exact h3 x hx
+
+theorem linspace_mem_le (mn mx : α) (n : Nat) (hn : 1 ≤ n) (h : mn < mx) :
+    ∀ b ∈ linspace mn mx n, b ≤ mx := by
+  intro b hb
+  obtain ⟨i, hi, rfl⟩ := List.mem_iff_getElem.mp hb
+  rw [linspace_length] at hi
+  have := linspace_getElem? mn mx n i hn (by omega)
+  rw [List.getElem?_eq_getElem (by rw [linspace_length]; exact hi)] at this
+  rw [Option.some.inj this]
+  rcases Nat.lt_or_ge i n with h0 | h0
+  · have := lin_lt mn mx n i n hn h h0
+    rw [lin_last _ _ _ hn] at this; exact le_of_lt this
+  · have : i = n := by omega
+    subst this; rw [lin_last _ _ _ hn]
+
+theorem maxList_linspace (mn mx : α) (n : Nat) (hn : 1 ≤ n) (h : mn < mx) :
+    maxList (linspace mn mx n) = mx := by
+  have hne : linspace mn mx n ≠ [] := by
+    intro h0; have := linspace_length mn mx n; rw [h0] at this; simp at this
+  apply le_antisymm
+  · exact linspace_mem_le mn mx n hn h _ (maxList_mem _ hne)
+  · exact le_maxList _ _ (List.mem_of_getLast? (linspace_getLast? mn mx n hn))
+
+theorem minList_linspace (mn mx : α) (n : Nat) (hn : 1 ≤ n) (h : mn < mx) :
+    minList (linspace mn mx n) = mn := by
+  have hh := linspace_head? mn mx n
+  rcases hl : linspace mn mx n with _ | ⟨x, xs⟩
+  · rw [hl] at hh; simp at hh
+  · rw [hl] at hh
+    simp only [List.head?_cons, Option.some.injEq] at hh
+    subst hh
+    unfold minList
+    obtain ⟨h1, h2, h3⟩ := foldl_min_spec xs x
+    apply le_antisymm h2
+    have := linspace_mem_ge x mx n hn h _ (hl ▸ h1)
+    exact this
+
+/-- what a correct `_grabPSDfromIndex` result looks like -/
+structure GrabOK (g : Grab α) (mn mx : α) (n : Nat) : Prop where
+  grid : GridOK mn mx n g.bounds g.psd
+  size_eq : g.size = midpoints g.bounds
+  bins_eq : g.bins = n
+  mn_eq : g.mn = mn
+  mx_eq : g.mx = mx
+  minl : minList g.bounds = mn
+  maxl : maxList g.bounds = mx
+
+/-- a consistent record is read back as the consistent grid that was recorded (or, for the all-zero
+first record, as the original empty grid) -/
+theorem grab_ok (s : State α) (rb rp : List α) (hrow : RowOK rb rp)
+    (ho1 : 1 ≤ s.origBins) (ho2 : 0 ≤ s.origMin) (ho3 : s.origMin < s.origMax) :
+    ∃ mn mx n, GrabOK (grab s rb rp) mn mx n := by
+  rcases hrow with h | ⟨mn, mx, n, b, p, k1, k2, hmn, hg, rfl, rfl⟩
+  · refine ⟨s.origMin, s.origMax, s.origBins, ?_⟩
+    simp only [grab, h, if_true]
+    exact ⟨gridOK_fresh _ _ _ ho1 ho2 ho3, rfl, rfl, minList_linspace _ _ _ ho1 ho3, maxList_linspace _ _ _ ho1 ho3,
+      minList_linspace _ _ _ ho1 ho3, maxList_linspace _ _ _ ho1 ho3⟩
+  · have hb := hg.bounds_eq
+    have hbl : b.length = n + 1 := by rw [hb, linspace_length]
+    have hpos : ∀ x ∈ b, 0 < x := by
+      rw [hb]; intro x hx
+      exact lt_of_lt_of_le hmn (linspace_mem_ge _ _ _ hg.bins_pos hg.lt x hx)
+    have hnz : nonzeroCount (b ++ zeros k1) = n + 1 := by
+      rw [nonzeroCount_append, nonzeroCount_zeros, nonzeroCount_pos_all b hpos, hbl]
+    have ht1 : (b ++ zeros k1).take (n + 1) = b := List.take_left' hbl
+    have ht2 : (p ++ zeros k2).take (n + 1 - 1) = p := List.take_left' (by rw [hg.psd_len]; omega)
+    refine ⟨mn, mx, n, ?_⟩
+    simp only [grab, hnz, Nat.succ_ne_zero, if_false, ht1, ht2]
+    have hmin : minList b = mn := by rw [hb]; exact minList_linspace _ _ _ hg.bins_pos hg.lt
+    have hmax : maxList b = mx := by rw [hb]; exact maxList_linspace _ _ _ hg.bins_pos hg.lt
+    exact ⟨hg, rfl, hg.psd_len, hmin, hmax, hmin, hmax⟩
+
+theorem applyGrab_inv (s : State α) (g : Grab α) (mn mx : α) (n : Nat) (h : Inv s) (hg : GrabOK g mn mx n) :
+    Inv (applyGrab s g) := by
+  obtain ⟨_, hsz, ho1, ho2, ho3, hbk, hr, hsv⟩ := h
+  obtain ⟨g1, g2, g3, g4, g5, _, _⟩ := hg
+  refine ⟨?_, g2, ho1, ho2, ho3, hbk, hr, hsv⟩
+  simp only [applyGrab, g3, g4, g5]
+  exact g1
+
+theorem interp0_nonneg (xp fp : List α) (x : α) (hf : ∀ y ∈ fp, 0 ≤ y) : 0 ≤ interp0 xp fp x := by
+  unfold interp0
+  split
+  · next x0 _ f0 _ =>
+    split
+    · exact le_refl _
+    · next h =>
+      split
+      · split
+        · exact le_refl _
+        · apply interpAux_nonneg _ _ _ hf
+          intro y hy; simp at hy; subst hy; exact not_lt.mp h
+      · exact le_refl _
+  · exact le_refl _
+
+/-- re-expressing a consistent record on another consistent grid gives one non-negative population
+per class of the target grid -/
+theorem resize_ok (src dst : Grab α) (m1 x1 : α) (n1 : Nat) (m2 x2 : α) (n2 : Nat)
+    (h1 : GrabOK src m1 x1 n1) (h2 : GrabOK dst m2 x2 n2) (q : List α) (hq : resize src dst = some q) :
+    q.length = n2 ∧ ∀ x ∈ q, 0 ≤ x := by
+  have hw1 : ∀ w ∈ widths src.bounds, 0 ≤ w := by
+    intro w hw; rw [h1.grid.bounds_eq] at hw
+    exact (widths_linspace_nonneg _ _ _ h1.grid.bins_pos h1.grid.lt w hw).le
+  have hw2 : ∀ w ∈ widths dst.bounds, 0 ≤ w := by
+    intro w hw; rw [h2.grid.bounds_eq] at hw
+    exact (widths_linspace_nonneg _ _ _ h2.grid.bins_pos h2.grid.lt w hw).le
+  have hs1 : ∀ r ∈ src.size, 0 ≤ r := by
+    rw [h1.size_eq, h1.grid.bounds_eq]
+    exact midpoints_linspace_nonneg _ _ _ h1.grid.bins_pos h1.grid.min_nonneg h1.grid.lt
+  have hs2 : ∀ r ∈ dst.size, 0 ≤ r := by
+    rw [h2.size_eq, h2.grid.bounds_eq]
+    exact midpoints_linspace_nonneg _ _ _ h2.grid.bins_pos h2.grid.min_nonneg h2.grid.lt
+  have hraw : ∀ x ∈ List.zipWith (fun x w => interp0 (midpoints src.bounds)
+      (List.zipWith (fun p w => p / w) src.psd (widths src.bounds)) x * w) dst.size (widths dst.bounds), 0 ≤ x := by
+    apply forall_mem_zipWith _ (fun _ => True) (fun w => 0 ≤ w) (fun x => 0 ≤ x)
+    · intro a w _ hw0
+      refine mul_nonneg (interp0_nonneg _ _ _ ?_) hw0
+      exact forall_mem_zipWith _ (fun p => 0 ≤ p) (fun w => 0 ≤ w) (fun x => 0 ≤ x)
+        (fun p w a b => div_nonneg a b) _ _ h1.grid.psd_nonneg hw1
+    · intros; trivial
+    · exact hw2
+  have hlen : (List.zipWith (fun x w => interp0 (midpoints src.bounds)
+      (List.zipWith (fun p w => p / w) src.psd (widths src.bounds)) x * w) dst.size (widths dst.bounds)).length = n2 := by
+    simp only [List.length_zipWith, h2.size_eq, midpoints_length, widths_length, h2.grid.bounds_eq, linspace_length]
+    omega
+  simp only [resize] at hq
+  split at hq
+  · simp at hq
+  · split at hq
+    · have := Option.some.inj hq; subst this
+      refine ⟨by rw [List.length_map]; exact hlen, ?_⟩
+      intro x hx
+      simp only [List.mem_map] at hx
+      obtain ⟨y, hy, rfl⟩ := hx
+      refine mul_nonneg (hraw y hy) (div_nonneg ?_ ?_)
+      · exact moment_nonneg _ _ _ h1.grid.psd_nonneg hs1
+      · exact moment_nonneg _ _ _ hraw hs2
+    · have := Option.some.inj hq; subst this
+      exact ⟨by rw [zeros_length, h2.bins_eq], zeros_nonneg _⟩
+
+theorem blend_nonneg (U L : List α) (t lt ut : α) (hU : ∀ x ∈ U, 0 ≤ x) (hL : ∀ x ∈ L, 0 ≤ x)
+    (h1 : lt ≤ t) (h2 : t < ut) : ∀ x ∈ blend U L t lt ut, 0 ≤ x := by
+  unfold blend
+  apply forall_mem_zipWith _ (fun x => 0 ≤ x) (fun x => 0 ≤ x) (fun x => 0 ≤ x) _ _ _ hU hL
+  intro u l hu hl
+  have hd : 0 < ut - lt := by linarith
+  have : (u - l) * (t - lt) / (ut - lt) + l = (u * (t - lt) + l * (ut - t)) / (ut - lt) := by
+    field_simp; ring
+  rw [this]
+  apply div_nonneg _ hd.le
+  have : 0 ≤ t - lt := by linarith
+  have : 0 ≤ ut - t := by linarith
+  positivity
+
+/-- the blended state sits on the grid `g` (the record with more classes) -/
+theorem onGrid_inv (s : State α) (g : Grab α) (mn mx : α) (n : Nat) (psd : List α) (h : Inv s)
+    (hg : GrabOK g mn mx n) (hl : psd.length = n) (hp : ∀ x ∈ psd, 0 ≤ x) :
+    Inv { s with bounds := g.bounds, size := midpoints g.bounds, psd := psd,
+                 bins := (midpoints g.bounds).length, min := minList g.bounds, max := maxList g.bounds } := by
+  obtain ⟨_, hsz, ho1, ho2, ho3, hbk, hr, hsv⟩ := h
+  have hbins : (midpoints g.bounds).length = n := by
+    rw [midpoints_length, hg.grid.bounds_eq, linspace_length]; omega
+  refine ⟨?_, rfl, ho1, ho2, ho3, hbk, hr, hsv⟩
+  simp only [hbins, hg.minl, hg.maxl]
+  exact ⟨hg.grid.bins_pos, hg.grid.min_nonneg, hg.grid.lt, hg.grid.bounds_eq, hl, hp⟩
+
+theorem between_inv (s s' : State α) (u l : Grab α) (t lt ut : α) (h : Inv s)
+    (mu xu : α) (nu : Nat) (ml xl : α) (nl : Nat) (hu : GrabOK u mu xu nu) (hl : GrabOK l ml xl nl)
+    (h1 : lt ≤ t) (h2 : t < ut) (hs : between s u l t lt ut = some s') : Inv s' := by
+  unfold between at hs
+  split at hs
+  · rw [Option.map_eq_some_iff] at hs
+    obtain ⟨lp, hres, rfl⟩ := hs
+    obtain ⟨hlen, hnn⟩ := resize_ok l u _ _ _ _ _ _ hl hu lp hres
+    apply onGrid_inv s u mu xu nu _ h hu
+    · simp [blend, hlen, hu.grid.psd_len]
+    · exact blend_nonneg _ _ _ _ _ hu.grid.psd_nonneg hnn h1 h2
+  · rw [Option.map_eq_some_iff] at hs
+    obtain ⟨up, hres, rfl⟩ := hs
+    obtain ⟨hlen, hnn⟩ := resize_ok u l _ _ _ _ _ _ hu hl up hres
+    apply onGrid_inv s l ml xl nl _ h hl
+    · simp [blend, hlen, hl.grid.psd_len]
+    · exact blend_nonneg _ _ _ _ _ hnn hl.grid.psd_nonneg h1 h2
+
+theorem rowOK_of_getElem? (B P : List (List α)) (T : List α) (h : RecsOK B P T) (i : Nat) (rb rp : List α)
+    (hb : B[i]? = some rb) (hp : P[i]? = some rp) : RowOK rb rp := by
+  have : (B.zip P)[i]? = some (rb, rp) := List.getElem?_zip_eq_some.mpr ⟨hb, hp⟩
+  exact h.2.2 (rb, rp) (List.mem_of_getElem? this)
+
+/-- first index at which a predicate holds, when there is one (`np.argmax` of a boolean array) -/
+theorem argmaxFirst_first (p : Nat → Bool) (len j : Nat) (hj : j < len) (hp : p j = true) :
+    argmaxFirst p len < len ∧ p (argmaxFirst p len) = true ∧ ∀ k, k < argmaxFirst p len → p k = false := by
+  unfold argmaxFirst
+  cases hf : (List.range len).find? (fun i => p i) with
+  | none =>
+    rw [List.find?_eq_none] at hf
+    exact absurd hp (hf j (by simpa using hj))
+  | some i =>
+    rw [List.find?_eq_some_iff_getElem] at hf
+    obtain ⟨hpi, k, hk, hki, hmin⟩ := hf
+    simp only [List.getElem_range] at hki hmin
+    subst hki
+    simp only [List.length_range] at hk
+    refine ⟨hk, hpi, ?_⟩
+    intro m hm
+    have := hmin m hm
+    simpa using this
+
+/-- **Inv is preserved by `setPSDtoRecordedTime`** at any time, for any requested time: before the
+first record, after the last, or in between (blend of the neighbouring records) -/
+theorem setRecorded_inv (s s' : State α) (t : α) (h : Inv s) (hs : setRecorded s t = some s') : Inv s' := by
+  have hr := h.recs
+  have ho1 := h.orig_bins
+  have ho2 := h.orig_nonneg
+  have ho3 := h.orig_lt
+  unfold setRecorded at hs
+  split at hs
+  · split at hs
+    · next t0 tl hhead hlast =>
+      split at hs
+      · split at hs
+        · next rb rp hb hp =>
+          have := Option.some.inj hs; subst this
+          obtain ⟨mn, mx, n, hg⟩ := grab_ok s rb rp (rowOK_of_getElem? _ _ _ hr 0 rb rp hb hp) ho1 ho2 ho3
+          exact applyGrab_inv s _ mn mx n h hg
+        · simp at hs
+      · split at hs
+        · split at hs
+          · next rb rp hb hp =>
+            have := Option.some.inj hs; subst this
+            rw [List.getLast?_eq_getElem?] at hb hp
+            rw [← hr.1] at hp
+            obtain ⟨mn, mx, n, hg⟩ := grab_ok s rb rp (rowOK_of_getElem? _ _ _ hr _ rb rp hb hp) ho1 ho2 ho3
+            exact applyGrab_inv s _ mn mx n h hg
+          · simp at hs
+        · next hnle1 hnle2 =>
+          dsimp only at hs
+          split at hs
+          · next ub up lb lp ut lt hub hup hlb hlp hut hlt =>
+            have ht0 : t0 < t := not_le.mp hnle1
+            have htl : t < tl := not_le.mp hnle2
+            -- the last time exceeds t, so a first index with a larger time exists
+            have hlen : 0 < s.recTime.length := by
+              cases hT : s.recTime with
+              | nil => rw [hT] at hhead; simp at hhead
+              | cons a as => simp
+            have hlastD : s.recTime.getD (s.recTime.length - 1) 0 = tl := by
+              rw [List.getLast?_eq_getElem?] at hlast
+              rw [List.getD_eq_getElem?_getD, hlast]; rfl
+            obtain ⟨_, hpu, hmin⟩ := argmaxFirst_first (fun i => decide (t < s.recTime.getD i 0)) s.recTime.length
+              (s.recTime.length - 1) (by omega)
+              (by show decide (t < s.recTime.getD (s.recTime.length - 1) 0) = true; rw [hlastD]; exact decide_eq_true htl)
+            have hutD : s.recTime.getD (argmaxFirst (fun i => decide (t < s.recTime.getD i 0)) s.recTime.length) 0 = ut := by
+              rw [List.getD_eq_getElem?_getD, hut]; rfl
+            have h2 : t < ut := by
+              have := hpu; simp only [decide_eq_true_eq] at this; rw [hutD] at this; exact this
+            have hu0 : argmaxFirst (fun i => decide (t < s.recTime.getD i 0)) s.recTime.length ≠ 0 := by
+              intro h0
+              rw [h0] at hpu
+              simp only [decide_eq_true_eq] at hpu
+              rw [List.head?_eq_getElem?] at hhead
+              rw [List.getD_eq_getElem?_getD, hhead] at hpu
+              exact absurd hpu (not_lt.mpr ht0.le)
+            have h1 : lt ≤ t := by
+              have := hmin (argmaxFirst (fun i => decide (t < s.recTime.getD i 0)) s.recTime.length - 1) (by omega)
+              simp only [decide_eq_false_iff_not, not_lt] at this
+              rw [List.getD_eq_getElem?_getD, hlt] at this
+              exact this
+            obtain ⟨mu, xu, nu, hgu⟩ := grab_ok s ub up (rowOK_of_getElem? _ _ _ hr _ ub up hub hup) ho1 ho2 ho3
+            obtain ⟨ml, xl, nl, hgl⟩ := grab_ok s lb lp (rowOK_of_getElem? _ _ _ hr _ lb lp hlb hlp) ho1 ho2 ho3
+            exact between_inv s s' _ _ t lt ut h mu xu nu ml xl nl hgu hgl h1 h2 hs
+          · simp at hs
+    · simp at hs
+  · have := Option.some.inj hs; subst this; exact h
+
 /-! ### operation sequences -/
 
 /-- stated precondition of each operation (what the caller has to guarantee) -/
@@ -957,12 +1424,17 @@ def Pre (s : State α) : Op α → Prop
   | .change cMin cMax b? r =>
       (∀ b, b? = some b → 1 ≤ b) ∧ (r = false → 0 ≤ cMin) ∧ (r = false → cMin < amax2 (10 * cMin) cMax)
   | .adjust _ => 1 ≤ s.minBins ∧ 1 ≤ s.maxBins
-  | .update N => N.length = s.bins
+  | .update _ N => N.length = s.bins ∧ (s.recording = true → 0 < s.min)
   | .backup => True
   | .revert => True
   | .setPsd N => N.length = s.bins ∧ ∀ x ∈ N, 0 ≤ x
   | .load _ => True
   | .setAdaptive _ => True
+  | .enableRec => True
+  | .record _ => s.recording = true → 0 < s.min
+  | .setRecorded _ => True
+  | .saveRec => True
+  | .loadRec => True
 
 /-- **Inv is preserved by every operation under its stated precondition** -/
 theorem inv_step (s s' : State α) (op : Op α) (h : Inv s) (hp : Pre s op) (hs : step s op = some s') :
@@ -971,23 +1443,28 @@ theorem inv_step (s s' : State α) (op : Op α) (h : Inv s) (hp : Pre s op) (hs 
   | reset b =>
     have := Option.some.inj hs; subst this
     cases b with
-    | true => exact reset_true_inv s h.orig_bins h.orig_nonneg h.orig_lt
-    | false => exact reset_false_inv s h.grid.bins_pos h.grid.min_nonneg h.grid.lt h.orig_bins h.orig_nonneg h.orig_lt
+    | true => exact reset_true_inv s h.orig_bins h.orig_nonneg h.orig_lt h.recs h.saved
+    | false => exact reset_false_inv s h.grid.bins_pos h.grid.min_nonneg h.grid.lt h.orig_bins h.orig_nonneg h.orig_lt h.recs h.saved
   | add k => exact add_inv s s' k h hs
   | change cMin cMax b? r => exact change_inv s s' cMin cMax b? r h hp.1 hp.2.1 hp.2.2 hs
   | adjust c =>
     simp only [step, Option.map_eq_some_iff] at hs
     obtain ⟨⟨s1, chg, ni⟩, hadj, rfl⟩ := hs
     exact adjust_inv s s1 c chg ni h hp.1 hp.2 hadj
-  | update N => have := Option.some.inj hs; subst this; exact update_inv s N h hp
+  | update t N => exact update_inv s s' t N h hp.1 hp.2 hs
   | backup => have := Option.some.inj hs; subst this; exact backup_inv s h
   | revert => exact revert_inv s s' h hs
   | setPsd N => have := Option.some.inj hs; subst this; exact setPsd_inv s N h hp.1 hp.2
   | load d => exact load_inv s s' d h hs
   | setAdaptive b =>
     have := Option.some.inj hs; subst this
-    obtain ⟨hg, hsz, ho1, ho2, ho3, hbk⟩ := h
-    exact ⟨hg, hsz, ho1, ho2, ho3, hbk⟩
+    obtain ⟨hg, hsz, ho1, ho2, ho3, hbk, hr, hsv⟩ := h
+    exact ⟨hg, hsz, ho1, ho2, ho3, hbk, hr, hsv⟩
+  | enableRec => have := Option.some.inj hs; subst this; exact enableRec_inv s h
+  | record t => exact record_inv s s' t h hp hs
+  | setRecorded t => exact setRecorded_inv s s' t h hs
+  | saveRec => have := Option.some.inj hs; subst this; exact saveRec_inv s h
+  | loadRec => exact loadRec_inv s s' h hs
 
 /-- every operation of the sequence meets its precondition in the state it is applied to -/
 def Valid : State α → List (Op α) → Prop
@@ -1033,8 +1510,35 @@ theorem inv_run_init (cMin cMax : α) (bins minBins maxBins : Nat) (ops : List (
 /-- operations that do not touch the backup (everything except reset, re-mesh, createBackup and the
 automatic adjustment, which may re-mesh) -/
 def KeepsBackup : Op α → Prop
-  | .add _ | .update _ | .setPsd _ | .load _ | .setAdaptive _ | .revert => True
+  | .add _ | .update _ _ | .setPsd _ | .load _ | .setAdaptive _ | .revert
+  | .enableRec | .record _ | .setRecorded _ | .saveRec | .loadRec => True
   | _ => False
+
+theorem between_keeps_backup (s s' : State α) (u l : Grab α) (t lt ut : α) (hs : between s u l t lt ut = some s') :
+    s'.prevPsd = s.prevPsd ∧ s'.prevBounds = s.prevBounds := by
+  unfold between at hs
+  split at hs <;>
+    (rw [Option.map_eq_some_iff] at hs; obtain ⟨q, _, rfl⟩ := hs; exact ⟨rfl, rfl⟩)
+
+theorem setRecorded_keeps_backup (s s' : State α) (t : α) (hs : setRecorded s t = some s') :
+    s'.prevPsd = s.prevPsd ∧ s'.prevBounds = s.prevBounds := by
+  unfold setRecorded at hs
+  split at hs
+  · split at hs
+    · split at hs
+      · split at hs
+        · have := Option.some.inj hs; subst this; exact ⟨rfl, rfl⟩
+        · simp at hs
+      · split at hs
+        · split at hs
+          · have := Option.some.inj hs; subst this; exact ⟨rfl, rfl⟩
+          · simp at hs
+        · dsimp only at hs
+          split at hs
+          · exact between_keeps_backup s s' _ _ t _ _ hs
+          · simp at hs
+    · simp at hs
+  · have := Option.some.inj hs; subst this; exact ⟨rfl, rfl⟩
 
 theorem step_keeps_backup (s s' : State α) (op : Op α) (hk : KeepsBackup op) (hs : step s op = some s') :
     s'.prevPsd = s.prevPsd ∧ s'.prevBounds = s.prevBounds := by
@@ -1044,7 +1548,23 @@ theorem step_keeps_backup (s s' : State α) (op : Op α) (hk : KeepsBackup op) (
     split at hs
     · have := Option.some.inj hs; subst this; exact ⟨rfl, rfl⟩
     · simp at hs
-  | update N => have := Option.some.inj hs; subst this; exact ⟨rfl, rfl⟩
+  | update t N =>
+    simp only [step, update] at hs
+    have := record_fields _ s' t hs
+    rw [this]; exact ⟨rfl, rfl⟩
+  | enableRec => have := Option.some.inj hs; subst this; exact ⟨rfl, rfl⟩
+  | record t =>
+    have := record_fields s s' t hs
+    rw [this]; exact ⟨rfl, rfl⟩
+  | setRecorded t => exact setRecorded_keeps_backup s s' t hs
+  | saveRec =>
+    have := Option.some.inj hs; subst this
+    simp only [saveRec]; split <;> exact ⟨rfl, rfl⟩
+  | loadRec =>
+    simp only [step, loadRec] at hs
+    split at hs
+    · have := Option.some.inj hs; subst this; exact ⟨rfl, rfl⟩
+    · simp at hs
   | setPsd N => have := Option.some.inj hs; subst this; exact ⟨rfl, rfl⟩
   | load d =>
     simp only [step, load] at hs
@@ -1116,6 +1636,37 @@ theorem moments_ignore_stored_psd (s : State α) (P N w : List α) (k : Nat) :
     cumulativeWeightedMomentFromN { s with psd := P } N k w = cumulativeWeightedMomentFromN s N k w :=
   ⟨rfl, rfl, rfl, rfl⟩
 
+/-- **moment purity along histories**: after ANY valid operation sequence — including `revert`,
+`setPSDtoRecordedTime`, saving and loading records, which replace the grid without `reset` — every
+`...FromN` function is the moment of the supplied `N` on the CURRENT class boundaries; nothing
+remembered from an earlier grid can enter. -/
+theorem moments_after_run (s s' : State α) (ops : List (Op α)) (N w : List α) (k : Nat)
+    (h : Inv s) (hv : Valid s ops) (hr : run s ops = some s') :
+    momentFromN s' N k = moment N (midpoints s'.bounds) k ∧
+    cumulativeMomentFromN s' N k = cumsum (List.zipWith (fun n r => n * npow r k) N (midpoints s'.bounds)) ∧
+    weightedMomentFromN s' N k w =
+      (List.zipWith (fun t w => t * w) (List.zipWith (fun n r => n * npow r k) N (midpoints s'.bounds)) w).sum ∧
+    cumulativeWeightedMomentFromN s' N k w =
+      cumsum (List.zipWith (fun t w => t * w) (List.zipWith (fun n r => n * npow r k) N (midpoints s'.bounds)) w) := by
+  have hsz := (inv_run ops s s' h hv hr).size_eq
+  unfold momentFromN cumulativeMomentFromN weightedMomentFromN cumulativeWeightedMomentFromN weightedTerms
+  rw [hsz]
+  exact ⟨rfl, rfl, rfl, rfl⟩
+
+/-- two different histories that end on the same class boundaries give the same moments of the same
+supplied distribution -/
+theorem moments_history_independent (s1 s2 t1 t2 : State α) (ops1 ops2 : List (Op α)) (N w : List α) (k : Nat)
+    (h1 : Inv s1) (h2 : Inv s2) (v1 : Valid s1 ops1) (v2 : Valid s2 ops2)
+    (r1 : run s1 ops1 = some t1) (r2 : run s2 ops2 = some t2) (hb : t1.bounds = t2.bounds) :
+    momentFromN t1 N k = momentFromN t2 N k ∧
+    cumulativeMomentFromN t1 N k = cumulativeMomentFromN t2 N k ∧
+    weightedMomentFromN t1 N k w = weightedMomentFromN t2 N k w ∧
+    cumulativeWeightedMomentFromN t1 N k w = cumulativeWeightedMomentFromN t2 N k w := by
+  obtain ⟨a1, a2, a3, a4⟩ := moments_after_run s1 t1 ops1 N w k h1 v1 r1
+  obtain ⟨b1, b2, b3, b4⟩ := moments_after_run s2 t2 ops2 N w k h2 v2 r2
+  rw [a1, a2, a3, a4, b1, b2, b3, b4, hb]
+  exact ⟨rfl, rfl, rfl, rfl⟩
+
 /-! ### the unrestricted re-mesh claim is FALSE of the code: concrete witnesses over ℚ
 
 "Re-meshing preserves the third moment whenever the new grid covers the populated range" fails:
@@ -1169,13 +1720,29 @@ theorem witness224_has_volume : thirdMoment witness224 ≠ 0 := by decide +kerne
 example : Inv (init (1 : ℚ) 10 9 4 8) := inv_init 1 10 9 4 8 (by norm_num) (by norm_num) (by decide +kernel)
 example : (change witness9 1 10 (some 6) false).map (fun s => thirdMoment s) = some (thirdMoment witness9) ∧
     remeshNewV witness9 1 10 (some 6) ≠ 0 := by decide +kernel
-example : Valid (init (1 : ℚ) 10 3 2 8) [.update [7, 1/2, 3], .backup, .add 2, .revert] :=
-  ⟨(by decide +kernel : [7, 1/2, (3 : ℚ)].length = (init (1 : ℚ) 10 3 2 8).bins),
+example : Valid (init (1 : ℚ) 10 3 2 8) [.update 0 [7, 1/2, 3], .backup, .add 2, .revert] :=
+  ⟨(by decide +kernel : [7, 1/2, (3 : ℚ)].length = (init (1 : ℚ) 10 3 2 8).bins ∧
+      ((init (1 : ℚ) 10 3 2 8).recording = true → 0 < (init (1 : ℚ) 10 3 2 8).min)),
    fun _ _ => ⟨trivial, fun _ _ => ⟨trivial, fun _ _ => ⟨trivial, fun _ _ => trivial⟩⟩⟩⟩
-example : (run (init (1 : ℚ) 10 3 2 8) [.update [7, 1/2, 3], .backup, .add 2, .revert]).map (fun s => (s.psd, s.bins))
+example : (run (init (1 : ℚ) 10 3 2 8) [.update 0 [7, 1/2, 3], .backup, .add 2, .revert]).map (fun s => (s.psd, s.bins))
     = some ([7, 0, 3], 3) := by decide +kernel
 example : (adjust { witness9 with psd := [0, 0, 0, 0, 5, 0, 0, 0, 2] } false).map (fun r => decide (r.1.bins ≤ 8))
     = some true := by
   decide +kernel
+
+/-- recording: enable, record twice on different grids, load a time in between and beyond the end -/
+example : Valid (init (1 : ℚ) 10 3 2 8) [.enableRec, .record 1, .setRecorded 2] :=
+  ⟨trivial, fun s1 h1 => by
+    have := Option.some.inj h1; subst this
+    exact ⟨(by decide +kernel : (enableRec (init (1 : ℚ) 10 3 2 8)).recording = true → 0 < (enableRec (init (1 : ℚ) 10 3 2 8)).min),
+      fun _ _ => ⟨trivial, fun _ _ => trivial⟩⟩⟩
+example : (run (init (1 : ℚ) 10 3 2 8)
+      [.enableRec, .update 1 [7, 1/2, 3], .add 2, .update 2 [0, 4, 0, 9, 2], .setRecorded (3/2), .saveRec, .reset true,
+       .loadRec, .setRecorded 5]).map (fun s => (s.bins, s.psd, s.recBins.length))
+    = some (5, [0, 4, 0, 9, 2], 3) := by decide +kernel
+example : (run (init (1 : ℚ) 10 3 2 8)
+      [.enableRec, .update 1 [7, 1/2, 3], .add 2, .update 2 [0, 4, 0, 9, 2], .setRecorded (3/2)]).map
+        (fun s => (s.bins, decide (∀ x ∈ s.psd, 0 ≤ x), s.size == midpoints s.bounds))
+    = some (5, true, true) := by decide +kernel
 
 end KawinV.Props.C08
